@@ -154,10 +154,10 @@ prop(
 
 prop(
     "C08",
-    ["LolHtml.Thm.C08_Escape", "LolHtml.Thm.C08_Real", "LolHtml.Thm.C08_Codec"],
+    ["LolHtml.Thm.C08_Escape", "LolHtml.Thm.C08_Real", "LolHtml.Thm.C08_Codec", "LolHtml.Thm.C08_Encodings"],
     [{"lane": "esc", "n_quick": 3000, "n_thorough": 30000}],
     "lane esc: body text / attribute values / comment text / attribute names / tag names biased to <>&\"'-!/= whitespace NUL comment terminators non-BMP unmappable; utf-8 and x-user-defined; `attrseq` cases: two set_attribute calls with multi-byte names in Shift_JIS / Big5 / GBK / UTF-8 (encoded name verified against encoding_rs)",
-    ["encodings: the codec-generic theorems (C08_Codec) hold for every lawful codec in which a non-ASCII scalar never encodes to a byte below 0x40 (StructSafe: proved for UTF-8, windows-1252, iso-8859-7 and the toy two-byte codec; gb18030's digit trail bytes are outside it); the other encodings are exercised by the lane and the re-tokenising oracle",
+    ["encodings: C08 holds for ALL 36 ASCII-compatible encodings (Thm/C08_Encodings: one theorem over the 28 single-byte tables regenerated from the pinned encoding_rs, x-user-defined, UTF-8, and the WHATWG encoder algorithms of EUC-KR, Big5, Shift_JIS, EUC-JP, GBK, gb18030 for every index): no non-ASCII scalar encodes to a byte of HtmlStruct (every byte below 0x40 that is not a digit — contains every tokenizer-special byte and every byte of the extracted reject lists and closing sequences; gb18030's digit trail bytes are why the plain 0x40 law fails there: gb18030_not_structSafe). Assumed: encoding_rs implements those tables / WHATWG algorithms (lane + oracle)",
      "known finding F22: names are compared ASCII-case-insensitively on the ENCODED bytes (Shift_JIS/Big5/GBK trail bytes): duplicate attributes / debug_assert; C08_F22_counterexample",
      "escape maps, reject lists and closing sequences are re-extracted from the Rust text on every run (translate/consts2lean.py); 20 side-conditions by decide", PKG_SCOPE],
     level_text=("Lean 4 theorems on the generated constants: escaped body text contains no < > and only complete entities and "
@@ -170,7 +170,9 @@ prop(
                 "lexeme (C08_text_real), an accepted tag name / attribute serialises to exactly one start-tag lexeme whose name "
                 "and value ranges hold exactly the given bytes (C08_tagname_real, C08_attr_real), accepted comment text gives "
                 "exactly one comment lexeme with text range = the text (C08_comment_real) and rejected text ends the comment "
-                "early (C08_comment_real_early); codec-generic versions for lawful structure-safe codecs (C08_*_codec)."),
+                "early (C08_comment_real_early); codec-generic versions for lawful structure-safe codecs (C08_*_codec), instantiated "
+                "for all 36 supported encodings (C08_single_byte_encodings over the generated tables, C08_x_user_defined, C08_utf8, "
+                "C08_euc_kr, C08_big5, C08_shift_jis, C08_euc_jp, C08_gbk, C08_gb18030; encodings_covered)."),
     level_note="Trusted: Lean kernel; consts + DSL translators; small specs of the WHATWG comment / tag-name / attribute states (round 1); the real-lexer theorems use the core model tied by lane lex.",
     technique="Lean 4 proof (list induction; decidable side-conditions on translated constants) + correspondence lane + re-tokenising oracle",
     design_ref="DESIGN.md section 4 C08",
@@ -385,11 +387,11 @@ prop(
 
 prop(
     "C06",
-    ["LolHtml.Thm.C06_Scan", "LolHtml.Thm.C06_Relex", "LolHtml.Thm.C06_Indep", "LolHtml.Thm.C06_Handover", "LolHtml.Thm.C06_EndTag", "LolHtml.Thm.Full"],
+    ["LolHtml.Thm.C06_Scan", "LolHtml.Thm.C06_Relex", "LolHtml.Thm.C06_Indep", "LolHtml.Thm.C06_Handover", "LolHtml.Thm.C06_EndTag", "LolHtml.Thm.C06_FullCtl", "LolHtml.Thm.Full"],
     [{"lane": "lex", "n_quick": 4000, "n_thorough": 200000},
      {"lane": "full", "n_quick": 2000, "n_thorough": 40000}],
     LEX_RULE + "; oracle: every schedule S is also run as S u O for four observer sets O (TEXT, COMMENTS, DOCTYPES, every tag) and the events H would receive, the result and the sink bytes must be identical",
-    ["independence is proved for the lexer half (C06_independence_partial): for H whose flag sets always contain text, comments or doctypes (StickyCtl: H never drops to the tag scanner) and any observer set O, both modes, every chunking: same call results and same final state of H (H arbitrary, so its events), and same sink bytes for observer-only H (C06_independence_observing); with Model/Full, any two non-mutating configurations give the same output on successful runs (C06_real_output). The scanner<->lexer half (H's flags become empty) has the step simulation, boundary agreement, C06_relex_same_tag / C06_relex_end_tag (both hint directions) and one-event preservation lemmas at dispatcher level for every event kind in every mode combination (Thm/C06_Handover: C06_event_*), but the parser-level alignment of scanner hints with the observing lexer's lexemes (induction over hand-overs and chunk breaks) is not done: C06_independence_statement2 (non-strict, no memory-limit error, EmitDiscipline, PassThrough) stays a statement + oracle there",
+    ["independence is proved for the lexer half (C06_independence_partial): for H whose flag sets always contain text, comments or doctypes (StickyCtl: H never drops to the tag scanner) and any observer set O, both modes, every chunking: same call results and same final state of H (H arbitrary, so its events), and same sink bytes for observer-only H (C06_independence_observing); with Model/Full, any two non-mutating configurations give the same output on successful runs (C06_real_output). The scanner<->lexer half (H's flags become empty) has the step simulation, boundary agreement, C06_relex_same_tag / C06_relex_end_tag (both hint directions) and one-event preservation lemmas at dispatcher level for every event kind in every mode combination (Thm/C06_Handover: C06_event_*), but the parser-level alignment of scanner hints with the observing lexer's lexemes (induction over hand-overs and chunk breaks) is not done: C06_independence_statement3 (on runs in which every call of both runs succeeds H ends in the same state; non-strict, EmitDiscipline, PassThroughOn an invariant, sticky observers) stays a statement + oracle there; the real controller model meets both controller hypotheses (C06_fullCtl_emitDiscipline, C06_fullCtl_passThrough); the earlier statement2 ('call results equal') was REFUTED by C06_hint_error_witness: a controller whose handle_start_tag fails gives [Err,..] in scanner mode and [Ok, Err,..] in lexer mode for writes `<a ` then `>` (the scanner calls it at the end of the tag NAME, the lexer at `>`; same mechanism as F27) — the call at which a failing start-tag handler reports depends on the mode",
      "exceptions proved as witnesses on the model: C06_F27_witness (strict mode, known finding F27) and C06_memory_witness (limit 4 bytes, `<!--aaaaaaaa`: the scanner run succeeds, the lexer run reports MemoryLimitExceeded — the retained bytes differ between the modes, so the limit is mode-dependent)",
      "known finding F27: strict-mode ParsingAmbiguity on an unterminated tag at end of input depends on the handler set",
      MODEL_SCOPE],
